@@ -525,7 +525,7 @@ def run_parent(mod, tier, seed, nshards_override=None):
             s['count'] += slot['count']
             s['cases'].extend(slot['cases'])
         for he in r['harness_errors']:
-            errors.append('harness error in shard:\n' + he['tb'] + '\ncase: ' + _short(he['case'], 400))
+            errors.append('harness error in shard:\n' + str(he['tb']) + '\ncase: ' + str(_short(he['case'], 400)))
 
     findings = load_findings(mod.ID)
     lines = []
